@@ -51,6 +51,8 @@ type vEnv struct {
 	wrapNode              int
 	wrapEarly, wrapAfter  bool
 	sameWrapper           bool
+	equalContent          bool // distinct wrapper objects with equal contents
+	prewire, prewired     bool
 	wrappers              []*vWrap
 	earlyServed           []int
 	populatedBeforeChecks bool
@@ -229,6 +231,11 @@ func (p *vProc) PostProcessProperties(props []*component_definition.Property, c 
 				tg = nil // a lazy component's object is not a *vNode
 			}
 			e.choice[v.idx][pt] = tg
+			if e.prewire && pt == 0 && len(tg) == 1 && tg[0] != v.idx && !e.lazy[tg[0]] {
+				// the application wired this point by hand, with the registered component itself
+				v.P0 = e.nodes[tg[0]]
+				e.prewired = true
+			}
 			onlySelf := len(tg) > 0
 			for _, t := range tg {
 				pr.Injects = append(pr.Injects, e.metas[t])
@@ -285,6 +292,9 @@ func (p *vProc) wrap(c any) any {
 		return e.wrappers[0]
 	}
 	w := &vWrap{inner: c, gen: len(e.wrappers)}
+	if e.equalContent {
+		w.gen = 0
+	}
 	e.wrappers = append(e.wrappers, w)
 	return w
 }
@@ -599,6 +609,10 @@ func VerifC03() {
 	e.wrapEarly = nd.Bool()
 	e.wrapAfter = nd.Bool()
 	e.sameWrapper = nd.Bool()
+	if !e.sameWrapper {
+		e.equalContent = nd.Bool()
+	}
+	e.prewire = nd.Bool()
 	e.lookupMode = nd.Param("LOOKUP", 0) == 1
 	if nd.Param("REPLACE", 0) == 1 && nd.Bool() {
 		e.replaceNode = nd.Choose(n)
@@ -614,6 +628,9 @@ func VerifC03() {
 	}
 	if len(e.wrappers) > 0 {
 		nd.Cover("wrapped")
+	}
+	if e.prewired {
+		nd.Cover("a point wired by hand with the component itself")
 	}
 	selfKnown := false
 	if len(e.wrappers) > 1 {
